@@ -215,9 +215,14 @@ DefaultProj ==
    patn |-> <<0, 0>>, patt |-> <<0, 0>>, patl |-> <<0, 0>>]
 DefaultCmid == <<0, 0, 0, 0>>
 DefaultOpts(t) == IF t \in SpecTypes THEN [i \in 1..Len(Opts(t)) |-> <<Opts(t)[i].name, Opts(t)[i].default>>] ELSE <<>>
+(* the documented sub-fields of the SVPR word: level mode (bits 0-4, 5 listed values), orientation (bit 5), oscilloscope mode
+   (bits 8-12, 8 listed values), oscilloscope size (bits 16-23), background transparency (bits 24-25), shadow opacity (bits 26-27);
+   -1 where the bits hold a value the enumeration does not list *)
+VisF(v) == << IF v[1] % 32 < 5 THEN v[1] % 32 ELSE -1, (v[1] \div 32) % 2,
+              IF (v[1] \div 256) % 32 < 8 THEN (v[1] \div 256) % 32 ELSE -1, v[2] % 256, (v[2] \div 256) % 4, (v[2] \div 1024) % 4 >>
 BaseModule(mtype, name, flags) ==
   [kind |-> "module", mtype |-> mtype, name |-> name, flags |-> flags, fin |-> 0, rel |-> 0, x |-> 512, y |-> 512, layer |-> 0,
-   scale |-> <<256, 0>>, vis |-> <<257, 12>>, color |-> <<255, 255, 255>>, midi_in_always |-> 0, midi_in_channel |-> 0,
+   scale |-> <<256, 0>>, vis |-> <<257, 12>>, visf |-> VisF(<<257, 12>>), color |-> <<255, 255, 255>>, midi_in_always |-> 0, midi_in_channel |-> 0,
    moname |-> None, moch |-> 0, mobank |-> -1, moprog |-> -1, inl |-> <<>>, ins |-> <<>>, outl |-> <<>>, outs |-> <<>>,
    ctl |-> IF mtype \in SpecTypes THEN [i \in 1..Len(Ctls(mtype)) |-> Ctls(mtype)[i].default] ELSE <<>>,
    cmid |-> IF mtype \in SpecTypes THEN [i \in 1..Len(Ctls(mtype)) |-> DefaultCmid] ELSE <<>>,
@@ -462,7 +467,7 @@ ProcModule(s, c) == LET id == c.id  d == c.data IN
     [] id = "SYYY" -> [s EXCEPT !.mod.y = DecI32(d)]
     [] id = "SZZZ" -> [s EXCEPT !.mod.layer = DecI32(d)]
     [] id = "SSCL" -> [s EXCEPT !.mod.scale = DecL32(d)]
-    [] id = "SVPR" -> [s EXCEPT !.mod.vis = DecL32(d)]
+    [] id = "SVPR" -> [s EXCEPT !.mod.vis = DecL32(d), !.mod.visf = VisF(DecL32(d))]
     [] id = "SCOL" -> [s EXCEPT !.mod.color = d]
     [] id = "SMII" -> [s EXCEPT !.mod.midi_in_always = d[1] % 2, !.mod.midi_in_channel = DecI32(d) \div 2]
     [] id = "SMIN" -> [s EXCEPT !.mod.moname = Some(Cut0(d))]
@@ -541,9 +546,10 @@ NormModule(m, inproj) ==
                      !.flags = IF HasSpec(m) THEN OrL(@, Spec(m).flags) ELSE @,
                      !.moname = IF @ = << <<>> >> THEN <<>> ELSE @,
                      !.inl = StripT(@), !.ins = StripT(@), !.outl = StripT(@), !.outs = StripT(@),
+                     !.visf = VisF(m.vis),
                      !.payload = NormPayload(m)]
   IN IF inproj THEN a
-     ELSE [a EXCEPT !.x = 512, !.y = 512, !.layer = 0, !.vis = <<257, 12>>,        \* not stored in a .sunsynth
+     ELSE [a EXCEPT !.x = 512, !.y = 512, !.layer = 0, !.vis = <<257, 12>>, !.visf = VisF(<<257, 12>>),       \* not stored in a .sunsynth
                     !.inl = <<>>, !.ins = <<>>, !.outl = <<>>, !.outs = <<>>]
 NormObj(o) ==
   IF o.kind = "project" THEN [o EXCEPT !.modules = LET ms == DropTrailingNone(@) IN [i \in 1..Len(ms) |-> NormModule(ms[i], TRUE)]]
@@ -608,6 +614,12 @@ DiffObj(a, b) ==
 (*     structural rules of every written stream (C03), each named separately     *)
 (* ============================================================================ *)
 (* a fold over the chunks that tracks the open section and collects the names of violated rules *)
+(* fixed-size array blocks: (module type, block number) -> documented CHDT size in bytes *)
+ArrayBytes ==
+  (<<"Generator", 0>> :> 32) @@ (<<"Analog generator", 0>> :> 32) @@ (<<"FMX", 0>> :> 1024) @@ (<<"WaveShaper", 0>> :> 512)
+  @@ (<<"MultiCtl", 0>> :> 512) @@ (<<"MultiCtl", 1>> :> 514) @@ (<<"MetaModule", 1>> :> 384)
+  @@ (<<"MultiSynth", 0>> :> 128) @@ (<<"MultiSynth", 2>> :> 257) @@ (<<"MultiSynth", 3>> :> 256)
+  @@ (<<"SpectraVoice", 0>> :> 32) @@ (<<"SpectraVoice", 1>> :> 16) @@ (<<"SpectraVoice", 2>> :> 16) @@ (<<"SpectraVoice", 3>> :> 16)
 St0 == [mode |-> "top", bad |-> {}, ncval |-> 0, cmid |-> -1, chnk |-> -1, maxchnm |-> -1, lastchnm |-> -1, mtype |-> "",
         pdta |-> -1, plin |-> 32, pchn |-> 4, udc |-> 0, first |-> TRUE]
 RECURSIVE StructFold(_, _), StructBad(_)
@@ -646,8 +658,10 @@ StructStep(s, c) ==
                       \cup (IF s.lastchnm >= 258 /\ s.lastchnm <= 264 /\ (Len(d) < 20 \/ Len(d) # 20 + 4 * DecU16(Slice(d, 8, 2)))
                             THEN {"envelope-not-0x14-plus-4-per-point"} ELSE {})
                     ELSE {}
+             arr == IF ~c.isn /\ <<s.mtype, s.lastchnm>> \in DOMAIN ArrayBytes /\ Len(d) # ArrayBytes[<<s.mtype, s.lastchnm>>]
+                    THEN {"array-block-not-documented-size"} ELSE {}
              nest == IF c.isn THEN StructBad(c.nested) ELSE {} IN
-         [s EXCEPT !.bad = @ \cup rec \cup nest,
+         [s EXCEPT !.bad = @ \cup rec \cup arr \cup nest,
                    !.udc = IF s.mtype = "MetaModule" /\ s.lastchnm = 2 /\ Len(d) >= 1 THEN d[1] ELSE @]
     [] s.mode = "module" /\ id = "SEND" -> CloseModule(s)
     [] OTHER -> s
